@@ -462,7 +462,9 @@ func (t Time) Binary(op syntax.Token, y starlark.Value, side starlark.Side) (sta
 				// duration - time is not defined.
 				return nil, nil
 			}
-			return Time(x.Add(time.Duration(-y))), nil
+			// Subtract in two halves: negating the minimum duration overflows.
+			half := time.Duration(y) / 2
+			return Time(x.Add(-half).Add(-(time.Duration(y) - half))), nil
 		case Time:
 			// time - time = duration
 			return Duration(x.Sub(time.Time(y))), nil
